@@ -29,6 +29,12 @@ import (
 
 type clockDry struct{}
 
+// okStore: a counter store that always answers (uuid.Init needs one for the segment generator)
+type okStore struct{}
+
+func (okStore) Incr() (int64, error) { return 1, nil }
+func (okStore) Close() error         { return nil }
+
 type script struct {
 	mid     int64
 	t0      int64
@@ -41,7 +47,7 @@ func (s script) sx() Sx {
 	for i, e := range s.clock {
 		l[i] = Ints(e[0], e[1])
 	}
-	if s.callers > 1 {
+	if s.callers > 1 || s.callers < 0 {
 		return List(Int(s.mid), Int(s.t0), ListOf(l), Int(s.callers))
 	}
 	return List(Int(s.mid), Int(s.t0), ListOf(l))
@@ -91,7 +97,16 @@ func runGen(s script) (auto int64, outs []outcome) {
 	rd := s.readings()
 	pos := 0
 	uuid.VerifClock = func() int64 { return nanos(s.t0) }
-	sf := uuid.NewSnowflake(uint16(s.mid))
+	var sf *uuid.Snowflake
+	if s.callers < 0 {
+		// through the package-level API: Init(workerId, store) creates the global generator,
+		// NextUUID() is MustNext() on it (it panics with the error)
+		if err := uuid.Init(uint16(s.mid), okStore{}); err != nil {
+			panic(err)
+		}
+	} else {
+		sf = uuid.NewSnowflake(uint16(s.mid))
+	}
 	uuid.VerifClock = func() int64 {
 		if pos >= len(rd) {
 			panic(clockDry{})
@@ -104,7 +119,18 @@ func runGen(s script) (auto int64, outs []outcome) {
 		before := pos
 		var id int64
 		var err error
-		panicked, val := Catch(func() { id, err = sf.Next() })
+		panicked, val := Catch(func() {
+			if sf != nil {
+				id, err = sf.Next()
+			} else {
+				id = uuid.NextUUID()
+			}
+		})
+		if e, ok := val.(error); panicked && ok && sf == nil {
+			if _, dry := val.(clockDry); !dry {
+				panicked, err = false, e
+			}
+		}
 		o := outcome{consumed: int64(pos - before)}
 		switch {
 		case panicked:
@@ -456,6 +482,16 @@ func gen(a Args, out *Out) {
 	for _, m := range []int64{1, 1<<14 - 1, 65535} {
 		g.emit("edge", []script{{m, maxTU - 1, [][2]int64{{maxTU, 1025}, {maxTU + 1, 1}}, 0}})
 		g.emit("edge", []script{{m, maxTU, [][2]int64{{maxTU, 1024}, {maxTU + 1, 2}}, 0}})
+	}
+	// through uuid.Init / uuid.NextUUID
+	napi := 24
+	if a.Thorough() {
+		napi = 240
+	}
+	for k := 0; k < napi; k++ {
+		t0, clk := g.trajectory(k % 3)
+		mids := machineIDs(r)
+		g.emit("api", []script{{mids[1+r.Intn(len(mids)-1)], t0, clk, -1}})
 	}
 	// concurrent callers of one generator, linearised by the clock readings they consumed
 	nconc := 40
